@@ -63,6 +63,13 @@ def encode_seq(fn, raw=False, _depth=0):
                 t = subst_params(x["term"], args)
                 flds = self_fields(t)
                 seq.append({"ty": x["ty"], "field": flds[0] if flds else None, "src": show(t)[:80], "call": c, "term": t})
+        elif _depth < 3 and ((c.func or {}).get("arg_cl")) and (c.method or "") in ("for_each", "try_for_each"):
+            # `iter.for_each(|x| x.encode(buffer))`: the closure body is the loop body
+            for cid in c.func["arg_cl"]:
+                g = F.fns.get(cid)
+                if g is not None and g.blocks:
+                    for x in encode_seq(g, raw=raw, _depth=_depth + 1):
+                        seq.append({"ty": x["ty"], "field": None, "src": x["src"], "call": c, "term": x["term"]})
     if raw:
         out = []
         i = 0
